@@ -91,7 +91,10 @@ func (b *c06Batch) ValueSize() int { return len(b.ops) }
 type c06T = TrieDB[hash.H256, runtime.BlakeTwo256]
 
 type c06State struct {
-	ver trie.TrieLayout
+	// caller-owned slices handed to Put (the trie may keep them): pairs (slice, copy at call time);
+	// re-checked after every later call
+	held [][2][]byte
+	ver  trie.TrieLayout
 	db  *c06DB
 	tr  *c06T
 	im  *inmemory.InMemoryTrie
@@ -134,7 +137,25 @@ func c06Opt(b []byte) string {
 	return vhHex(b)
 }
 
+// heldMut reports whether a slice handed to an earlier Put has been modified since
+func (s *c06State) heldMut() bool {
+	for _, p := range s.held {
+		if !bytes.Equal(p[0], p[1]) {
+			return true
+		}
+	}
+	return false
+}
+
 func (s *c06State) op(op string) string {
+	out := s.op1(op)
+	if s.heldMut() && !strings.Contains(out, "!mut") {
+		out += "!mut"
+	}
+	return out
+}
+
+func (s *c06State) op1(op string) string {
 	f := strings.Fields(op)
 	if len(f) == 0 {
 		return "bad-op"
@@ -143,15 +164,17 @@ func (s *c06State) op(op string) string {
 	case f[0] == "put" && len(f) == 3:
 		k, v := vhUnhex(f[1]), vhUnhex(f[2])
 		k0 := append([]byte{}, k...)
+		v0 := append([]byte{}, v...)
 		err := s.tr.Put(k, v)
 		out := "ok"
 		if err != nil {
 			out = "err"
 		}
-		if !bytes.Equal(k, k0) {
+		if !bytes.Equal(k, k0) || !bytes.Equal(v, v0) {
 			out += "!mut"
 		}
-		_ = s.im.Put(k0, append([]byte{}, v...))
+		s.held = append(s.held, [2][]byte{k, k0}, [2][]byte{v, v0})
+		_ = s.im.Put(k0, v0)
 		s.m[string(k0)] = true
 		return out
 	case f[0] == "del" && len(f) == 2:
@@ -229,6 +252,9 @@ func c06Run(line string) string {
 		return strconv.Itoa(trie.V1.MaxInlineValue())
 	case "const HashLength":
 		return strconv.Itoa((*new(hash.H256)).Length())
+	}
+	if strings.HasPrefix(line, "nib ") {
+		return c06NibRun(line)
 	}
 	i := strings.IndexByte(line, '|')
 	if i < 0 {
